@@ -40,7 +40,7 @@
     fn time_plus_minus_duration() { plus_minus_duration(CHRONO_MAX_SECS, 86400, 7_258_118_400) }
     #[kani::proof]
     #[kani::stub(chrono::Utc::now, crate::verif_support::any_now)]
-    fn time_plus_minus_duration_small() { plus_minus_duration(200_000, 1_700_006_400, 1_700_092_800) }
+    fn time_plus_minus_duration_small() { plus_minus_duration(100_000, 1_700_006_400, 1_700_092_800) }
 
     // 'T1 + T2' / 'T1 - T2' use T2's time of day as the amount
     #[kani::proof]
